@@ -689,6 +689,24 @@ func (c *Ctx) readersReturnEveryRow(rule string, methods ...string) {
 				}
 			}
 			R.Check(rule, fk, "every scanned row is returned", c.P.InstrPos(st.Scan), ok, "the reader returns the list of all rows it scanned (a dropped row reads as 'not spent' / 'not pending' / 'not signed')", why)
+			// a success return that does not follow the row loop answers without having asked the table: only an
+			// empty request list may be answered that way (a fast path, a batched variant, a cache are other answers
+			// than the statement's and are not examined by the binding rules)
+			emptyReq := &Cond{Name: "request list is empty", Match: func(ft *Fact, _ *Origins) bool {
+				x := lenZero(ft)
+				return x != nil && strings.HasPrefix(x.String(), "P:")
+			}}
+			for _, r := range o.SuccessReturns() {
+				if len(r.Results) == 0 || l.Blocks[r.Block()] {
+					continue
+				}
+				if reach, _ := Reach(Point{l.Header, 0}, PointOf(r), NewCut()); reach {
+					continue
+				}
+				okE, whyE := o.Requires(r, emptyReq)
+				R.Check(rule, fk, "answer without the statement only for an empty request", c.P.InstrPos(r), okE,
+					"every success return of the reader follows the row loop of its statement, except the answer to an empty list", whyE)
+			}
 		}
 	}
 	if n == 0 {
